@@ -71,6 +71,13 @@ def _run_base(ctx):
         else:
             got = {p + '/' + k for p, kind, keys in ents if kind == 'keys' for k in keys}
             ok = got == want
+            # whole paths may belong to the details category too (the format version): only where the printer files them under details as well
+            from .extra import ignore_gates_for
+            for p_, kind_, keys_ in ents:
+                if kind_ == 'whole':
+                    g_ = ignore_gates_for(repo, p_)
+                    ctx.inst('R14.1', fid, 'category details: whole path %s (printer hides it under %s)' % (p_, sorted(g_)), g_ == {'details'},
+                             'the printer counts it as a detail too' if g_ == {'details'} else 'the differ ignores %s under details, the printer does not hide it under details' % p_, fn)
             leaf = all(sch.types_at(p) <= {'integer', 'null', 'number', 'string', 'boolean'} for p in got)
             ctx.inst('R14.1', fid, 'category details: key filters %s vs schema occurrences of execution_count %s' % (sorted(got), sorted(want)), ok and leaf,
                      'execution counts are filtered wherever the schema has them; filtered names are leaves' if ok and leaf else
